@@ -309,6 +309,40 @@ func pathFor(c ccase, what string) string {
 }
 
 // runOp performs the blocking operation; it returns when the library call returned.
+// closeBounded runs n concurrent Close() calls (twice each when twice is set) and waits for them with the watchdog: a Close
+// that does not return is a verdict of its own (and must not take the monitor down with it).
+func closeBounded(rec *vr.Rec, e *env, c ccase, n int, twice bool) bool {
+	var wg sync.WaitGroup
+	for i := 0; i < n; i++ {
+		wg.Add(1)
+		go func() {
+			defer wg.Done()
+			defer func() {
+				if r := recover(); r != nil {
+					rec.Violation("C09/"+c.Transport+"/close-panics", fmt.Sprint(r), c)
+				}
+			}()
+			_ = e.cc.Close()
+			if twice {
+				_ = e.cc.Close()
+			}
+		}()
+	}
+	ch := make(chan struct{})
+	go func() { wg.Wait(); close(ch) }()
+	select {
+	case <-ch:
+		return true
+	case <-time.After(watchdog):
+		what := "close-does-not-return"
+		if c.Peer == "noread" {
+			what = "close-does-not-return-while-peer-never-reads"
+		}
+		rec.Violation("C09/"+strings.TrimSuffix(c.Transport, "-mem")+"/"+what, fmt.Sprintf("%d concurrent Close() call(s) had not returned after %v (%s at point %s, %s peer, action %s)", n, watchdog, c.Op, c.Point, c.Peer, c.Action), c)
+		return false
+	}
+}
+
 func runOp(e *env, ctx context.Context, op string) error {
 	cc := e.cc
 	switch op {
@@ -440,12 +474,7 @@ func runCase(rec *vr.Rec, c ccase) {
 			if n < 1 {
 				n = 1
 			}
-			var wg sync.WaitGroup
-			for i := 0; i < n; i++ {
-				wg.Add(1)
-				go func() { defer wg.Done(); _ = e.cc.Close(); _ = e.cc.Close() }()
-			}
-			wg.Wait()
+			closeBounded(rec, e, c, n, true)
 		case "peer-close", "stop":
 			e.peerClose()
 		}
@@ -536,29 +565,18 @@ func runCase(rec *vr.Rec, c ccase) {
 			rec.Inconclusive("watchdog fired but no goroutine is parked in the library")
 		}
 		cancel()
-		_ = e.cc.Close()
-		select {
-		case <-done:
-		case <-time.After(watchdog):
+		if closeBounded(rec, e, c, 1, false) {
+			select {
+			case <-done:
+			case <-time.After(watchdog):
+			}
 		}
 		return
 	}
 	// close must be clean
-	var wg sync.WaitGroup
-	n := 1 + c.Closers%4
-	for i := 0; i < n; i++ {
-		wg.Add(1)
-		go func() {
-			defer wg.Done()
-			defer func() {
-				if r := recover(); r != nil {
-					rec.Violation("C09/"+c.Transport+"/close-panics", fmt.Sprint(r), c)
-				}
-			}()
-			_ = e.cc.Close()
-		}()
+	if !closeBounded(rec, e, c, 1+c.Closers%4, false) {
+		return
 	}
-	wg.Wait()
 	select {
 	case <-e.cc.Done():
 	case <-time.After(watchdog):
